@@ -488,7 +488,11 @@ func (e *Engine) rangeLoopFacts(fr *Frame, li *loopInfo, h *State) {
 		// after "iter < n" succeeded, and iter starts at 0 and is only incremented
 		if ic, n := rangeIntLoop(fr, li); ic != nil && n != nil {
 			if v, ok := h.cells[ic]; ok {
-				if b, ok := fr.vals[n]; ok {
+				b, ok := fr.vals[n]
+				if c, isConst := n.(*ssa.Const); isConst && !ok {
+					b, ok = e.constVal(c), true
+				}
+				if ok && b.K == KScalar {
 					e.ctx.Assume(implies(h.pc, and(sx("<=", "0", v.T), sx("<", v.T, b.T))))
 				}
 			}
